@@ -11,7 +11,7 @@ rm -rf $wt; mkdir -p $wt
 git -C /repo archive HEAD | tar -x -C $wt 2>/dev/null
 cp $src/patch.diff $out/; cp $src/notes.md $out/agent_notes.md 2>/dev/null
 if ! patch -p1 -s -d $wt -i $out/patch.diff; then echo "PATCH DOES NOT APPLY"; rm -rf $wt; exit 7; fi
-log=$out/checks.log; : > $log
+log=$out/checks.log; [ -n "$CHECKS" ] && log=$out/checks_rerun_after_repairs.log; : > $log
 echo "== fast tests with the refactoring" >> $log
 (cd $wt && PYTHONPATH=$wt timeout 900 /venv/bin/python -m pytest -q -p no:cacheprovider tests/test_selfies.py tests/test_selfies_utils.py tests/test_specific_cases.py 2>&1 | tail -2) >> $log
 mkdir -p /tmp/rf_ev_$label; cp /verif/evidence/*.json /tmp/rf_ev_$label/
